@@ -4,6 +4,7 @@
 #include <stdio.h>
 
 #define INDENT_CHAR '\t'
+#define ASL_XML_MAX_DEPTH 2000 // deeper nesting is rejected: element trees are destroyed (and encoded) recursively
 
 #ifdef _MSC_VER
 #pragma warning(disable : 26451 26495 26812)
@@ -453,7 +454,7 @@ Xml Xml::decode(const String& x)
 			break;
 		}
 
-		if (state == ERR)
+		if (state == ERR || elems.length() > ASL_XML_MAX_DEPTH + 1)
 			return Xml();
 	}
 	return (elems.top().numChildren() == 1)? elems.top().child(0) : Xml();
